@@ -228,6 +228,7 @@ pub(crate) struct State {
     pub chans: HashMap<usize, ChanModel>,
     pub barriers: HashMap<usize, BarrierModel>,
     pub clock: Option<ClockModel>,
+    stream: Option<Box<dyn ::std::io::Write + Send>>,
 }
 
 impl State {
@@ -373,6 +374,11 @@ impl State {
             tid,
             ev.body()
         );
+        if let Some(stream) = &mut self.stream {
+            let _ = stream.write_all(line.as_bytes());
+            let _ = stream.write_all(b"\n");
+            let _ = stream.flush();
+        }
         self.log.push(line);
     }
 
@@ -426,6 +432,9 @@ pub struct Config {
     pub spurious: u32,
     pub clock: Option<ClockModel>,
     pub wall_timeout: Duration,
+    /// Every event is also written here, unbuffered, as it is logged (used
+    /// to recover the prefix of a run that crashes or hangs the process).
+    pub stream: Option<Box<dyn ::std::io::Write + Send>>,
 }
 
 impl Default for Config {
@@ -436,6 +445,7 @@ impl Default for Config {
             spurious: 0,
             clock: None,
             wall_timeout: Duration::from_secs(60),
+            stream: None,
         }
     }
 }
@@ -476,6 +486,7 @@ where
             chans: HashMap::new(),
             barriers: HashMap::new(),
             clock: config.clock,
+            stream: config.stream,
         }),
         cv: Condvar::new(),
     });
